@@ -714,8 +714,15 @@ class PyExec:
             if isinstance(o, PObj):
                 if n.attr in o.attrs:
                     yield s, o.attrs[n.attr]
+                elif o.attrs.get('$strict') and ("%s.%s" % (o.cls, n.attr)) not in self.reg.method_models \
+                        and ("%s.%s" % (o.cls, n.attr)) not in self.reg.method_contracts:
+                    # an object whose attribute set is known exactly (a pycparser AST node built from its __slots__):
+                    # reading anything else is Python's AttributeError
+                    yield s, Exc('AttributeError')
                 else:
                     yield s, ('$method', o, n.attr)
+            elif o is None:
+                yield s, Exc('AttributeError')
             elif isinstance(o, tuple) and o and o[0] == '$module':
                 yield s, self.reg.module_attr(o[1], n.attr)
             else:
@@ -1438,6 +1445,8 @@ class PyExec:
             yield st, self.reg.callable(pos[0])
         elif name == 'hasattr' and isinstance(pos[0], PObj) and not is_sym(pos[1]):
             yield st, pos[1] in pos[0].attrs
+        elif name == 'hasattr' and pos[0] is None:
+            yield st, False
         elif name == 'repr' and ty_of(pos[0]) == 'str':
             yield st, (repr(pos[0]) if not is_sym(pos[0]) else SV(fmt_r(term(pos[0])), 'str'))
         elif name == 'range' and all(isinstance(p, int) for p in pos):
